@@ -58,8 +58,11 @@ def run_points(case, box=None, labels=None, queries=None, wall_s=300, state_hook
             r = float(seq[i]) if seq is not None else fn(i, p)
             algo.receive_reward(t, r)
             if i in queries:
-                q = algo.get_last_point()
-                out["qpoints"].append(list(q) if isinstance(q, (list, tuple)) else q)
+                try:
+                    q = algo.get_last_point()
+                    out["qpoints"].append(list(q) if isinstance(q, (list, tuple)) else q)
+                except Exception:
+                    out["qpoints"].append("ERR")  # asked too early (known findings of C01): recorded, run goes on
         if not case.get("no_last"):
             q = algo.get_last_point()
             out["last"] = list(q) if isinstance(q, (list, tuple)) else q
